@@ -5,6 +5,7 @@
 package main
 
 import (
+	"context"
 	"crypto/sha256"
 	"encoding/json"
 	"fmt"
@@ -42,6 +43,8 @@ type leg struct {
 }
 
 var checks = map[string]checkSpec{
+	"C11": {modDir: repoDir, pkg: "./cmd/gotelemetry/internal/view", test: "TestVerifC11View", shards: 8, quickS: 150, thoroS: 900, gomaxp: "2", floor: 200, minClass: 6,
+		extra: []leg{{repoDir + "/godev", "./cmd/telemetrygodev", "TestVerifC11Server", 8}}},
 	"C13": {modDir: repoDir + "/godev", pkg: "./cmd/worker", test: "TestVerifC13", quickS: 200, thoroS: 1200, gomaxp: "2", floor: 1000, minClass: 5},
 	"C18": {modDir: repoDir + "/godev", pkg: "./internal/storage", test: "TestVerifC18", shards: 8, quickS: 150, thoroS: 900, gomaxp: "2", floor: 200, minClass: 3},
 	"C12": {modDir: repoDir + "/godev", pkg: "./cmd/telemetrygodev", test: "TestVerifC12", shards: 8, quickS: 150, thoroS: 900, gomaxp: "4", floor: 500, minClass: 4},
@@ -384,7 +387,11 @@ func runLeg(li int, bin, test string, ls int, tier string, budget int, gmp, scra
 			defer wg.Done()
 			tag := fmt.Sprintf("leg%d-shard%d", li, i)
 			out := filepath.Join(outDir, tag+".json")
-			cmd := exec.Command(bin, "-test.run", "^"+test+"$", "-test.timeout", "0")
+			// Hard stop well beyond the worker's own internal deadline: a worker that is
+			// still running then is broken (exit 2), never a pass.
+			ctx, cancel := context.WithTimeout(context.Background(), time.Duration(3*budget+300)*time.Second)
+			defer cancel()
+			cmd := exec.CommandContext(ctx, bin, "-test.run", "^"+test+"$", "-test.timeout", "0")
 			cmd.Dir = pkgDir // like go test: some packages' TestMain inspects the module from the working directory
 			if gmp == "" {
 				gmp = "2"
